@@ -57,6 +57,14 @@ def size_of(c):
 
 
 def run(ctx):
+    replayed = None
+    if ctx.replay:
+        # a replay file names seed, tier and case id: the whole (deterministic) run is repeated with them, and the
+        # recorded observation is evaluated in Coq once more next to the fresh one
+        replayed = json.load(open(ctx.replay))
+        ctx.seed = int(replayed.get("seed", ctx.seed))
+        ctx.tier = replayed.get("tier", ctx.tier)
+        ctx.env["VERIF_SEED"], ctx.env["VERIF_TIER"] = str(ctx.seed), ctx.tier
     ctx.static_and_proofs("secure")
     quick = ctx.tier == "quick"
     args = ["-secure", "260" if quick else "10000", "-plans", "10" if quick else "250",
@@ -65,6 +73,9 @@ def run(ctx):
     if cases is None:
         ctx.evidence(dict(evaluations=0, distinct_nontrivial=0, rule="harness did not run", samples=[]))
         return
+    if replayed and replayed.get("coq_case") and len(replayed["coq_case"]) < 30000:
+        cases.append(dict(id="recorded:" + str(replayed.get("case")), kind=str(replayed.get("kind", "secure-recorded")).replace("c17-", "").rsplit("-", 1)[0] + "-recorded",
+                          coq=replayed["coq_case"], nontrivial=False, hash="recorded", dist={}, input=replayed.get("input"), observed=replayed.get("observed") or {}))
     terms = [c["coq"] for c in cases]
     results, infos = fw.eval_cases(ctx.work, "secure", HEADER, "case", "check_case", "case_ok", terms,
                                    timeout=600 if quick else 3000)
@@ -105,6 +116,7 @@ def run(ctx):
                            replay_cmd="VERIF_SEED=%s ./check C17 --tier %s   # case id %s" % (ctx.seed, ctx.tier, c["id"])),
                       tag="%s%d" % (fam, code))
 
+    cases = [c for c in cases if not c["id"].startswith("recorded:")]
     sec = [c for c in cases if c["kind"].startswith("secure")]
     pairs = fw.histogram(p for c in sec for p in (c["dist"].get("pairs") or []))
     by_kind = fw.histogram(c["kind"] for c in cases)
